@@ -738,6 +738,9 @@ fn search(
         let extra = oc.iter().enumerate().any(|(c, v)| !v.is_empty() && model.conns.get(c).map_or(true, |x| !x.deaf));
         if !(discs.is_empty() && !extra) {
             let n = discs.len() + oc.iter().map(|v| v.len()).sum::<usize>();
+            if std::env::var("VERIF_DEBUG").map_or(false, |v| v == "3") {
+                eprintln!("complete order {:?} fails: {:?} left {:?}", order, discs.iter().map(|d| (d.c, d.exp.clone(), d.obs.clone())).collect::<Vec<_>>(), oc);
+            }
             BEST_FAIL.with(|b| {
                 let mut b = b.borrow_mut();
                 if b.as_ref().map_or(true, |(m, _)| n < *m) {
